@@ -59,7 +59,7 @@ def edit(rich, how, seed):
 def true_duration_ms(path):
     if str(path).endswith(".wav"):
         with wave.open(str(path), "rb") as w:
-            return int(w.getnframes() / float(w.getframerate()) * 1000)
+            return w.getnframes() * 1000 // w.getframerate()      # exact whole milliseconds (no floating point)
     from mutagen.oggvorbis import OggVorbis
     return int(OggVorbis(str(path)).info.length * 1000)
 
